@@ -82,6 +82,54 @@ CHECKS = {
         "exhaustive": {"quick": False, "thorough": False},
         "assumptions": [REFCPU],
     },
+    "C07": {
+        "title": "interrupt dispatch: priority, masking, master enable, wake-up, push, cancellation",
+        "level": "exploration",
+        "rule": "cases = (IF, IE, master-enable state, run state, SP, PC) prepared on a Core built by the real loader; Core::handle_interrupt() called directly, "
+                "and reached through Core::update() after a NOP / a suspended step; compared with a reference dispatcher: run state, master enable, PC/vector, SP "
+                "(and its 16-bit range), IF, IE, cycles, and the hook-H1 write log (pushed bytes, addresses, order; no write at all without dispatch). All 32x32 IF/IE x 3 x 3 "
+                "x 96-value SP lattice x 10 PC values, plus every SP value for dispatching configurations. distinct_nontrivial = distinct (IF, IE, IME, run) tuples per path",
+        "phases": [
+            {"variant": "interp-dbg", "monitor": "c07", "shards": 16},
+            {"variant": "interp-rel", "monitor": "c07", "shards": 16, "tiers": ("thorough",)},
+            {"variant": "jit-dbg", "monitor": "c07", "shards": 16, "tiers": ("thorough",)},
+        ],
+        "floors": {"quick": {"evaluations": 8_000_000, "dispatches-cancelled-by-push": 1000, "push-hits-IE": 1000, "push-hits-IF": 1000}, "thorough": {"evaluations": 60_000_000}},
+        "exhaustive": {"quick": True, "thorough": True},
+        "assumptions": ["accept-set: when only the second (low-byte) push changes IF/IE, a decision taken before or after it passes (counted)",
+                        "exhaustive refers to the stated lattice (32x32x3x3 x SP lattice x PC list), thorough adds every SP value"],
+    },
+    "C08": {
+        "title": "EI delay, DI/RETI immediacy, HALT/STOP suspension for every short sequence",
+        "level": "exploration",
+        "rule": "cases = every sequence of length 1..5 (thorough: 1..7) over {EI, DI, RETI, HALT, STOP, NOP, LD (HL),B with HL=FF0F, LD (DE),A with DE=FFFF} x 3 master-enable "
+                "states x 3 run states x {nothing pending, pending+enabled, pending+masked}; one Core::update() per instruction in the build without jit; after every step "
+                "(IME, run state, PC, SP, IF, IE) must equal the reference state machine. distinct_nontrivial = distinct sequences + distinct (IME, run, op) transition kinds",
+        "phases": [
+            {"variant": "interp-dbg", "monitor": "c08", "shards": 16, "tiers": ("quick",)},
+            {"variant": "interp-rel", "monitor": "c08", "shards": 16, "tiers": ("thorough",)},
+        ],
+        "floors": {"quick": {"evaluations": 900_000, "steps-compared": 5_000_000}, "thorough": {"evaluations": 50_000_000}},
+        "exhaustive": {"quick": True, "thorough": True},
+        "assumptions": ["sequences that execute HALT while an enabled interrupt is already pending are cut at that point (excluded by the property; counted)"],
+    },
+    "C09": {
+        "title": "conservation of emulated time between CPU and devices; run_frame bounded",
+        "level": "exploration",
+        "rule": "cases = steps of generated programs (loops, calls, handlers, HALT, DMA, RAM-resident code, bank switches) under Core::update() and Core::run_code_block(); "
+                "an offline checker over the per-step hook log requires: C(m) then D(4m) then S [then V]; m >= 1; suspended steps deliver exactly 4 clocks; a dispatch leaves 5 "
+                "cycles that the next running step includes; m equals the static cost of the block (reference cycle table, branch outcome from the end PC); the timer "
+                "phase and a shadow LCD advance by exactly D; run_frame() returns within 2 frame periods + one block of emulated time (bound armed in the hook, decided in "
+                "emulated clocks). distinct_nontrivial = distinct (program, stepper) pairs",
+        "phases": [
+            {"variant": "interp-dbg", "monitor": "c09", "shards": 16},
+            {"variant": "jit-dbg", "monitor": "c09", "shards": 16},
+        ],
+        "floors": {"quick": {"evaluations": 3_000_000, "dispatches": 5_000, "steps:halted-or-stopped": 100_000, "run_frame-calls": 500},
+                   "thorough": {"evaluations": 30_000_000}},
+        "exhaustive": {"quick": False, "thorough": False},
+        "assumptions": [REFCPU, "an unbounded 'always terminates' is restated as bounded progress in emulated time"],
+    },
 }
 
 # properties not claimed (with reason); everything else is in CHECKS
